@@ -100,6 +100,19 @@ def explore(res, tier, seed, model_ok=True):
         nutf += len(idxs)
         res.count('utf8_boundary_streams_invalid' if invalid else 'utf8_boundary_streams_valid')
     res.exhaustive['single_cuts_of_utf8_boundary_streams'] = nutf
+    # a message of more than 1 MiB followed by a 70000-byte one: read frame by frame, in plain 64 KiB reads, and in 64 KiB reads shifted by a few bytes
+    if True:
+        base = Scenario([], prate=0)
+        hs = base.good_reply()
+        f1 = gen_core.server_frame(2, gen_core.rand_bytes(rng, (1 << 20) + rng.choice([0, 1, 999])))
+        f2 = gen_core.server_frame(1, gen_core.rand_text(rng, 70000))
+        f3 = gen_core.server_frame(9, b'end')
+        data = hs + f1 + f2 + f3
+        idxs = []
+        for chunks in ([hs, f1, f2, f3], [data], [data[:7]] + [data[7:]], [hs + f1[:-3], f1[-3:] + f2[:5], f2[5:] + f3], [hs + f1 + f2[:1], f2[1:] + f3]):
+            idxs.append(len(scs)); scs.append(Scenario(reads(limit_chunks(chunks)) + [('wait', 1, ('eof',))], {}, prate=0))
+        groups.append((data, idxs))
+        res.count('message_over_1MiB')
     # exhaustive cut sets for short post-handshake streams
     exh = 0
     for i in range(6 if tier == 'quick' else 12):
